@@ -183,6 +183,16 @@ Record opts := mkOpts {
   o_conv_cur : account;      (* Equity:Conversions:Current *)
   o_conv_currency : Z }.     (* conversion_currency, "NOTHING" *)
 
+Definition is_equity (a : account) : bool := match fst a with Equity => true | _ => false end.
+(* options.get_previous_accounts / get_current_accounts build all five under the
+   Equity root name (name_equity option) *)
+Definition opts_equity (o : opts) : Prop :=
+  is_equity (o_earn_prev o) = true /\ is_equity (o_opening o) = true /\ is_equity (o_conv_prev o) = true /\
+  is_equity (o_earn_cur o) = true /\ is_equity (o_conv_cur o) = true.
+Definition is_option_account (o : opts) (a : account) : bool :=
+  acct_eqb a (o_earn_prev o) || acct_eqb a (o_opening o) || acct_eqb a (o_conv_prev o) ||
+  acct_eqb a (o_earn_cur o) || acct_eqb a (o_conv_cur o).
+
 Definition open_c (o : opts) (d : Z) (l : list txn) : list txn :=
   let l1 := conversions l (o_conv_prev o) (o_conv_currency o) (Some d) in
   let l2 := transfer_balances l1 (Some d) is_income_statement (o_earn_prev o) in
@@ -291,3 +301,13 @@ Definition o_ledger (l : list txn) : out := o_list o_txn (filter (fun t => negb 
 Definition o_check (c : from_check) : out := match c with FromOk => ON 0 | FromCompilationError => ON 1 end.
 Definition o_close (c : option close_spec) : out :=
   match c with None => OL [] | Some CloseAll => OL [ON 1] | Some (CloseOn e) => OL [ON 2; ON e] end.
+
+(* one ledger, many clause combinations: what the statement does (compile check, then prepare) *)
+Definition clause := (option Z * option close_spec * bool)%type.
+Definition run_clause (o : opts) (l : list txn) (c : clause) : out :=
+  let '(op, cl, clr) := c in
+  match check_dates op cl with
+  | FromCompilationError => OL [ON 1]
+  | FromOk => OL [ON 0; o_ledger (prepare_c o op cl clr l)]
+  end.
+Definition run_cases (o : opts) (l : list txn) (cs : list clause) : out := o_list (run_clause o l) cs.
